@@ -154,9 +154,10 @@ func depCachedMiss(w *world, r *refState, l int, n nameT) bool {
 	return e != nil && e.Value() == nil
 }
 
-// genDep: every history of length <= maxLen over root 0 <- modules 1 (`m`) and 2 (`n`), the dependency loader 3 over
-// them and its child 4; the names {b, M::b} (unqualified; qualified naming module 1); lookups everywhere, definitions in
-// the modules (different values, so that the dependency order shows) and in the child
+// genDep: every history of length <= 2 (quick) / <= 3 (thorough) over root 0 <- modules 1 (`m`) and 2 (`n`), the dependency
+// loader 3 over them and its child 4; the names {b, M::b} (unqualified; qualified naming module 1); lookups everywhere, definitions in the
+// modules (different values, so that the dependency order shows) and in the child — 18 steps; plus every history
+// of length 3 (quick) / 4 (thorough) over the 10 steps that use the unqualified name
 func genDep(g *core.G, maxLen int) {
 	tree := "(tree (p -1) (p 0) (p 0) (dep (x6d 1) (x6e 2)) (p 3))"
 	var alpha []string
@@ -173,19 +174,27 @@ func genDep(g *core.G, maxLen int) {
 		}
 	}
 	alpha = append(alpha, "(disc 3 all)", "(disc 4 all)")
-	var rec func(prefix []string)
-	rec = func(prefix []string) {
-		if len(prefix) > 0 {
+	// all 18 steps up to length 3; length 4 (thorough) over the 10 steps of the unqualified name
+	var rec func(alpha, prefix []string, from, to int)
+	rec = func(alpha, prefix []string, from, to int) {
+		if len(prefix) >= from {
 			g.Emit("hist " + tree + " (steps " + strings.Join(prefix, " ") + ")")
 		}
-		if len(prefix) == maxLen {
+		if len(prefix) == to {
 			return
 		}
 		for _, a := range alpha {
-			rec(append(prefix, a))
+			rec(alpha, append(prefix, a), from, to)
 		}
 	}
-	rec(nil)
+	sub := append(append([]string{}, alpha[:8]...), alpha[16:]...)
+	if maxLen > 3 {
+		rec(alpha, nil, 1, 3)
+		rec(sub, nil, 4, 4)
+	} else {
+		rec(alpha, nil, 1, 2)
+		rec(sub, nil, 3, 3)
+	}
 	// shapes the alphabet above does not reach: no module has a name; two modules of one name; a module name that is
 	// not lower case; an ill-formed name; definitions in the dependency loader itself; the static loader below the modules
 	b, mb, bad := nm("type", "b", "r"), nm("type", "m::b", "r"), nm("type", "m::1b", "r")
